@@ -25,7 +25,11 @@ Oracles    : implementation only, judged by the property text (no model involved
                backends-differ / spec   local vs S3 vs a 6-line dict store on every in-domain sequence
                range-file               S3RangeFile and open_seekable()'s BufferedReader vs a real local file
                                         (FileIO / buffered) on the same content; every Range header in range
-               retry-contract           attempts / result / sleeps of with_s3_retry judged directly
+               retry-contract           attempts / result / sleeps of with_s3_retry judged directly; transient faults at
+                                        ANY request index of an operation (positional plans), and systematically at every
+                                        page of multi-page listings (3..7 keys, page size 2; within / beyond the budget;
+                                        permanent errors): listing compared as a sorted LIST (duplicates count), request counts
+               paged-listing (corr)     the same listings vs Model/Paged.v (retry restarts the whole listing; C20_paged_listing_*)
 """
 from __future__ import annotations
 
@@ -49,8 +53,9 @@ THEOREMS = [
     "C20_retry_masks", "C20_retry_permanent", "C20_retry_nonretryable", "C20_retry_exhaust",
     "C20_retry_returns_own_value", "C20_retry_raises_own_error",
     "C20_s3_retry_masks", "C20_s3_retry_permanent", "C20_s3_retry_exhaust",
+    "C20_paged_listing_masks", "C20_paged_listing_permanent",
 ]
-REQ = ["DS.Model.Str", "DS.Gen.GenS3", "DS.Model.Backend", "DS.Model.Range", "DS.Model.Retry", "DS.Model.BackendTrace", "DS.Model.C20IO"]
+REQ = ["DS.Model.Str", "DS.Gen.GenS3", "DS.Model.Backend", "DS.Model.Range", "DS.Model.Retry", "DS.Model.BackendTrace", "DS.Model.Paged", "DS.Model.C20IO"]
 
 MANIFEST_ENTRY = {
     "level_text": "C20_refine_s3 / C20_refine_local / C20_backends_agree proved in Coq for every operation sequence over canonical "
@@ -66,7 +71,8 @@ MANIFEST_ENTRY = {
                   "implemented by harness/lib/fakes3.py; local theorem assumes no key is a directory of another key and no "
                   "'.'/'..'/empty segments (path normalisation is C17); exists() is compared on exact keys only (the "
                   "property's wording): exists(<directory>) is True locally and False on S3 without a trailing '/'; "
-                  "BufferedReader and faults inside a multi-request operation are covered by oracles/correspondence only",
+                  "BufferedReader is covered by oracles only; faults inside a paginated listing are modelled (Model/Paged.v, theorem + correspondence), "
+                  "faults inside other multi-request operations (exists('dir/'), open_seekable) by oracles only",
     "technique": "Coq refinement proofs (simulation + induction over operation lists) over translator-regenerated kernels + "
                  "differential correspondence against real backends over an in-memory S3",
     "design_ref": "DESIGN.md section 5 C20",
@@ -1184,22 +1190,8 @@ def shrink_list_case(c: Dict[str, Any]) -> Dict[str, Any]:
     return best
 
 
-def oracle_list_faults(ctx) -> None:
-    """Faults at EVERY request index of a multi-page listing: transient ones within the budget must leave the listing
-    (a multiset: duplicates count) equal to the local backend's; beyond the budget the transient error surfaces after
-    exactly max+1 attempts; a permanent error surfaces with the very request it hit."""
-    from datashard.storage_backend import LocalStorageBackend
+def gen_list_fault_cases(ctx) -> List[Tuple[int, str, List[int], List[List[Any]]]]:
     rng = ctx.rng
-    # the local backend's listing of the same directory is the reference for the multiset
-    for nkeys in range(3, 8):
-        root = tempfile.mkdtemp(prefix="lst-", dir=ctx.scratch)
-        lb = LocalStorageBackend(root)
-        names = [f"data/f{i}.parquet" for i in range(nkeys)]
-        for k in names + ["data2/x", "database"]:
-            lb.write_file(k, b"v")
-        if sorted(lb.list_files("data")) != sorted(names):
-            ctx.violation("backends-differ:ListDir:local-reference", f"local listing of data/ is {sorted(lb.list_files('data'))}", {"kind": "other"})
-        shutil.rmtree(root, ignore_errors=True)
     transient = [["before", "SlowDown"], ["after", "SlowDown"], ["before", "ConnectionResetError"], ["after", "InternalError"], ["before", "EndpointConnectionError"]]
     cases: List[Tuple[int, str, List[int], List[List[Any]]]] = []
     for nkeys in range(3, 8):
@@ -1222,6 +1214,26 @@ def oracle_list_faults(ctx) -> None:
         for _ in range(10 if ctx.tier == "quick" else 200):         # random fault-page sequences of length 0..7
             m = rng.randint(0, 7)
             cases.append((nkeys, pfx, [rng.randrange(npages) for _ in range(m)], [rng.choice(transient) for _ in range(m)]))
+    return cases
+
+
+def oracle_list_faults(ctx) -> None:
+    """Faults at EVERY request index of a multi-page listing: transient ones within the budget must leave the listing
+    (a multiset: duplicates count) equal to the local backend's; beyond the budget the transient error surfaces after
+    exactly max+1 attempts; a permanent error surfaces with the very request it hit."""
+    from datashard.storage_backend import LocalStorageBackend
+    rng = ctx.rng
+    # the local backend's listing of the same directory is the reference for the multiset
+    for nkeys in range(3, 8):
+        root = tempfile.mkdtemp(prefix="lst-", dir=ctx.scratch)
+        lb = LocalStorageBackend(root)
+        names = [f"data/f{i}.parquet" for i in range(nkeys)]
+        for k in names + ["data2/x", "database"]:
+            lb.write_file(k, b"v")
+        if sorted(lb.list_files("data")) != sorted(names):
+            ctx.violation("backends-differ:ListDir:local-reference", f"local listing of data/ is {sorted(lb.list_files('data'))}", {"kind": "other"})
+        shutil.rmtree(root, ignore_errors=True)
+    cases = gen_list_fault_cases(ctx)
     seen = set()
     nbad = 0
     for nkeys, pfx, pages_, faults in cases:
@@ -1250,6 +1262,34 @@ def oracle_list_faults(ctx) -> None:
 
 def exp_kind(bad: Dict[str, Any]) -> str:
     return bad["expected"][0]
+
+
+def corr_paged(ctx) -> None:
+    """Real list_files under a positional fault plan vs Model/Paged.v paged_list: result (exact order) and total requests."""
+    cases = gen_list_fault_cases(ctx)
+    exprs, impl = [], []
+    for nkeys, pfx, fault_pages, faults in cases:
+        s3, be, names = list_rig(nkeys, pfx)
+        s3.plan = plan_for(fault_pages, [mk_fault(f[:2]) for f in faults])
+        try:
+            got: Any = ("ret", list(be.list_files("data")))
+        except Exception as e:  # noqa: BLE001
+            from datashard.s3_consistency import is_permanent_s3_error
+            got = ("raise", "FPermanent" if is_permanent_s3_error(e) else "FTransient")
+        impl.append((got, len(s3.log)))
+        s3.clear_faults()
+        snames = sorted(names)
+        pages = [snames[i:i + LIST_PAGE] for i in range(0, len(snames), LIST_PAGE)] or [[]]
+        plan = plan_for(fault_pages, ["(Some FPermanent)" if (len(f) > 2 and f[2]) else "(Some FTransient)" for f in faults])
+        exprs.append("paged_case [" + "; ".join("[" + "; ".join(cstr(k) for k in pg) + "]" for pg in pages) + "] ["
+                     + "; ".join("None" if x is None else x for x in plan) + "]")
+    got_m = ceval(exprs)
+    bad = []
+    for case, (gi, nreq), (rm, nm) in zip(cases, impl, got_m):
+        m: Any = ("ret", list(rm.args[0])) if rm.name == "PLReturned" else ("raise", rm.args[0].name) if rm.name == "PLRaised" else ("ended",)
+        if gi != m or nreq != nm:
+            bad.append({"nkeys": case[0], "prefix": case[1], "fault_pages": case[2], "faults": case[3], "impl": [list(gi), nreq], "model": [list(m), nm]})
+    ctx.correspondence("paged-listing", len(cases), bad)
 
 
 # ======================================================================================== driver
@@ -1296,6 +1336,7 @@ def run(ctx) -> None:
         phase("corr_raw", corr_raw, ctx)
         phase("corr_kernels", corr_kernels, ctx)
         phase("corr_range", corr_range, ctx)
+        phase("corr_paged", corr_paged, ctx)
     except RuntimeError as e:
         ctx.proof_problems.append("model evaluation failed: " + str(e)[:800])
 
